@@ -150,6 +150,15 @@ impl Ord for Variable {
                     }
                 }
                 JmespathType::Number => {
+                    // Integers are ordered exactly: as f64, neighbours above 2^53 collapse.
+                    if let (Variable::Number(a), Variable::Number(b)) = (self, other) {
+                        if let (Some(a), Some(b)) = (a.as_i64(), b.as_i64()) {
+                            return a.cmp(&b);
+                        }
+                        if let (Some(a), Some(b)) = (a.as_u64(), b.as_u64()) {
+                            return a.cmp(&b);
+                        }
+                    }
                     if let (Some(a), Some(b)) = (self.as_number(), other.as_number()) {
                         a.partial_cmp(&b).unwrap_or(Ordering::Less)
                     } else {
